@@ -255,3 +255,11 @@ mod tests {
         }
     }
 }
+
+#[cfg(feature = "verif-hooks")]
+impl<K: Clone + Eq + Hash, V> LruTimeCache<K, V> {
+    /// Read-only iteration in LRU order, least recently used first (verification hook).
+    pub fn verif_iter(&self) -> impl Iterator<Item = (&K, &V)> {
+        self.map.iter().map(|(k, (v, _))| (k, v))
+    }
+}
